@@ -8,6 +8,7 @@ Protocol (one op per line, all numbers non-negative decimal integers; see lean/O
   loud id utf8|ascii|closed|none   (store.silent = False and the process console becomes a strict UTF-8 stream / an ASCII
                                     stream / a closed stream; none: silent = True again)
   label <hex code points>          (the `operation` text passed to the following consume calls; default "op")
+  an amount (cost / n) may be written b0 | b1 (False / True) or s<natural> (an instance of an int subclass)
   race k <call A> / <call B>       (two overlapping calls: A is preempted just before its k-th acquisition of a store lock and B
                                     runs to completion there - B wins the race for the lock; calls are consume/regen/transfer/
                                     convert/dorm/wake lines; observation `<ret A> <ret B> | <every store>`)
@@ -18,6 +19,7 @@ Observation: `<ret> | <store>[ | <store>] | cb [id:state,...]`,
 from __future__ import annotations
 
 import itertools
+import signal
 import sys
 import threading
 from fractions import Fraction
@@ -45,6 +47,39 @@ def _quot(a, b):
         return a / b
     except OverflowError:
         return FLOAT_MAX
+
+
+class _Hang(BaseException):
+    """a call of the store did not return (e.g. it waits for a lock its own thread holds); BaseException: no handler of the
+    code under test swallows it"""
+
+
+def _on_alarm(signum, frame):
+    _Watchdog.hangs += 1
+    raise _Hang()
+
+
+class _Watchdog:
+    """`with _Watchdog(seconds):` - a blocking lock acquisition in the main thread is interruptible by a signal, so a call that
+    hangs is ended by SIGALRM and reported instead of stalling the whole check (two system calls per guarded call)"""
+    usable = False
+    hangs = 0          # once a call has hung (a violation already), later calls get 0.75 s: a self-deadlock is deterministic
+
+    def __init__(self, seconds):
+        self.seconds = seconds
+
+    def __enter__(self):
+        if _Watchdog.usable:
+            signal.setitimer(signal.ITIMER_REAL, self.seconds if _Watchdog.hangs == 0 else 0.75)
+
+    def __exit__(self, *exc):
+        if _Watchdog.usable:
+            signal.setitimer(signal.ITIMER_REAL, 0)
+        return False
+
+
+class _RaceStuck(Exception):
+    """call A of a race line could not get a lock while call B was stuck waiting for one that A holds"""
 
 
 class _Observer:
@@ -86,6 +121,28 @@ def _console(kind):
 
 def _isnat(tok: str) -> bool:
     return tok.isascii() and tok.isdigit()
+
+
+class _IntSub(int):
+    """an int subclass (what an IntEnum member, a numpy-free counter type, ... is to the store): arithmetic gives plain ints"""
+    __slots__ = ()
+
+
+def _isamt(tok: str) -> bool:
+    """an amount: a natural, `b0` / `b1` (False / True - bool is an int), `s<natural>` (an instance of an int subclass)"""
+    return tok in ("b0", "b1") or _isnat(tok[1:] if tok[:1] == "s" else tok)
+
+
+def _amt(tok: str) -> int:
+    """the plain value of an amount token"""
+    return int(tok[1:]) if tok[:1] in ("b", "s") else int(tok)
+
+
+def _val(tok: str):
+    """the object passed to the store for an amount token"""
+    if tok[:1] == "b":
+        return tok == "b1"
+    return _IntSub(tok[1:]) if tok[:1] == "s" else int(tok)
 
 
 class C04(Prop):
@@ -132,6 +189,9 @@ class C04(Prop):
         # the module sees a `threading` whose Thread is captured and a `time` whose sleep costs nothing (locks stay real)
         self.bg = Background(m)
         m.threading = self.bg.fake_threading()
+        if threading.current_thread() is threading.main_thread():
+            signal.signal(signal.SIGALRM, _on_alarm)
+            _Watchdog.usable = True
         self.float_checked = False
         self.float_ok = True
         self.float_truncated = 0
@@ -285,13 +345,13 @@ class C04(Prop):
         i = int(t[1])
         s = stores[i]
         if op == "consume":
-            return s.consume(int(t[2]), getattr(self, "_label", "op"), self.cur[t[3]], t[4] == "1", int(t[5])), [i]
+            return s.consume(_val(t[2]), getattr(self, "_label", "op"), self.cur[t[3]], t[4] == "1", int(t[5])), [i]
         if op == "regen":
-            return s.regenerate(int(t[2]), self.cur[t[3]]), [i]
+            return s.regenerate(_val(t[2]), self.cur[t[3]]), [i]
         if op == "transfer":
-            return s.transfer_to(stores[int(t[2])], int(t[3]), self.cur[t[4]]), [i, int(t[2])]
+            return s.transfer_to(stores[int(t[2])], _val(t[3]), self.cur[t[4]]), [i, int(t[2])]
         if op == "convert":
-            return s.convert_nadh_to_atp(int(t[2])), [i]
+            return s.convert_nadh_to_atp(_val(t[2])), [i]
         if op == "dorm":
             return s.enter_dormancy(), [i]
         if op == "wake":
@@ -341,6 +401,7 @@ class C04(Prop):
             stores = [self._mk(lines[0]), self._mk(lines[1])]
             no_inflow = rng.random() < 0.4
             with_obs = rng.random() < 0.3
+            typed = rng.random() < 0.12          # amounts of unusual but legal type: bool, an int subclass
 
             def obs_line():
                 i = rng.choice([0, 0, 1])
@@ -398,8 +459,9 @@ class C04(Prop):
                         for _ in range(reps - 1):
                             lines.append(line)
                             try:
-                                self._apply(stores, line)
-                            except Exception:
+                                with _Watchdog(6):
+                                    self._apply(stores, line)
+                            except (Exception, _Hang):
                                 pass
                         k += reps - 1
                 elif op == "regen":
@@ -427,11 +489,18 @@ class C04(Prop):
                     line = obs_line()
                 else:
                     line = f"{op} {i}"
+                if typed and line.split()[0] in ("consume", "regen", "transfer", "convert") and rng.random() < 0.5:
+                    # the same amount as a bool / as an instance of an int subclass
+                    t_ = line.split()
+                    pos = 3 if t_[0] == "transfer" else 2
+                    t_[pos] = ("b" + t_[pos]) if t_[pos] in ("0", "1") else ("s" + t_[pos])
+                    line = " ".join(t_)
                 lines.append(line)
                 k += 1
                 try:
-                    self._apply(stores, line)
-                except Exception:
+                    with _Watchdog(6):
+                        self._apply(stores, line)
+                except (Exception, _Hang):
                     pass
             if kind < 0.03:   # malformed stream: unknown ops, wrong arity, non-numeric / negative tokens, missing store
                 bad = rng.choice(["bogus 0", "consume 0 x atp 1 0", "consume 0 -5 atp 1 0", "consume 9 1 atp 0 0",
@@ -488,13 +557,16 @@ class C04(Prop):
                 for ops in itertools.product(ralpha, repeat=k):
                     rcases.append({"lines": list(cfg) + list(ops), "note": f"exhaustive (regeneration_rate > 0) depth {k}"})
         # quantities beyond the range of a C double: store 0 huge throughout, store 1 a tiny capacity with a huge credit line,
-        # store 2 a tiny capacity with a huge NADH reserve (quotients debt/capacity and current/capacity beyond 2**1024)
+        # store 2 a tiny capacity with a huge NADH reserve (quotients debt/capacity and current/capacity beyond 2**1024), store 3 both
         H, P = H310, P1030
-        hcfg = [f"new {H} {H} 0 {H} 0 1", f"new 1 0 0 {P} 1 2", f"new 1 0 {H} 0 0 1"]
+        hcfg = [f"new {H} {H} 0 {H} 0 1", f"new 1 0 0 {P} 1 2", f"new 1 0 {H} 0 0 1", f"new 1 0 {H} {H} 0 1"]
         halpha = [f"consume 0 {H} atp 0 10", f"consume 0 {H // 10} atp 1 10", f"consume 0 {H + H // 10} atp 1 10",
                   f"consume 0 {H // 10} nadh 1 10", f"consume 0 {H + H // 3} gtp 1 10", "regen 0 5 atp", "wake 0", "interest 0",
                   "transfer 0 1 7 atp", f"consume 1 {P // 8 + 1} atp 1 10", "interest 1", "regen 1 3 atp",
-                  f"consume 2 {10 * H} atp 0 10", "consume 2 1 atp 0 10", "convert 2 3"]
+                  f"consume 2 {10 * H} atp 0 10", "consume 2 1 atp 0 10", "convert 2 3",
+                  # store 3: a refused spend leaves its NADH top-up in ATP (current / capacity beyond the float range), then a
+                  # GTP spend on credit (debt / capacity beyond it as well): both quotients saturate
+                  f"consume 3 {10 * H} atp 0 10", f"consume 3 {H // 2} gtp 1 10"]
         hcases = []
         for k in range(1, depth):
             for ops in itertools.product(halpha, repeat=k):
@@ -503,7 +575,8 @@ class C04(Prop):
         # acquisition, on a colony with room in the peer (drained first) - with and without a credit line
         racecfgs = [["new 10 10 10 0 1 10", "new 10 10 10 0 1 10", "consume 1 10 atp 0 10", "consume 1 10 gtp 0 10",
                      "consume 1 10 nadh 0 10"],
-                    ["new 100 0 0 50 1 10", "new 20 0 0 40 1 10", "consume 1 30 atp 1 10"]]
+                    ["new 100 0 0 50 1 10", "new 20 0 0 40 1 10", "consume 1 30 atp 1 10"],
+                    ["new 10 10 10 0 1 10", "new 10 10 10 0 1 10", "consume 1 10 atp 0 10", "consume 0 6 atp 0 10"]]
         ralpha2 = ["consume 0 10 atp 0 10", "consume 0 6 atp 1 10", "consume 0 120 atp 1 10", "transfer 0 1 10 atp", "transfer 0 1 6 atp",
                    "transfer 1 0 5 atp", "transfer 0 1 10 gtp", "transfer 0 1 10 nadh", "consume 0 10 gtp 0 10",
                    "consume 0 10 nadh 0 10", "regen 0 30 atp", "regen 1 30 atp", "convert 0 5"]
@@ -519,10 +592,10 @@ class C04(Prop):
                                            "note": "overlapping calls, then the history goes on"})
         return [{"name": f"all histories of <= {depth} ops over a 13-op alphabet on 3 two-store configurations",
                  "cases": cases},
-                {"name": f"all histories of <= {depth - 1} ops over a 15-op alphabet on a colony whose budgets / reserves / debt "
+                {"name": f"all histories of <= {depth - 1} ops over a 17-op alphabet on a colony whose budgets / reserves / debt "
                          "limits lie beyond the range of a C double (10^310, 2^1030)", "cases": hcases},
                 {"name": "all ordered pairs of overlapping calls over a 13-call alphabet x preemption before the 1st / 2nd lock "
-                         "acquisition of the first call, on 2 colonies", "cases": race_cases},
+                         "acquisition of the first call, on 3 colonies", "cases": race_cases},
                 {"name": f"all histories of <= {depth} ops over a 12-op alphabet (ticks, zero amounts) on 2 configurations with "
                          "regeneration_rate > 0", "cases": rcases},
                 {"name": f"9 observer scripts x all histories of <= {depth - 1} ops over a 10-op alphabet on 3 configurations",
@@ -541,7 +614,7 @@ class C04(Prop):
 
     def _show_store(self, s):
         st = s.get_statistics()
-        return " ".join(str(x) for x in [
+        return " ".join((str(int(x)) if isinstance(x, int) else str(x)) for x in [
             s.get_balance(self.m.EnergyType.ATP), s.get_balance(self.m.EnergyType.GTP),
             s.get_balance(self.m.EnergyType.NADH), s.get_debt(), st["total_consumed"], st["total_regenerated"],
             st["operations_count"], st["failed_operations"], self._ntx(s), s.get_state().value,
@@ -555,8 +628,8 @@ class C04(Prop):
             return "0"
         if r is None:
             return "none"
-        if type(r) is int:
-            return str(r)
+        if isinstance(r, int):
+            return str(int(r))
         return f"?{type(r).__name__}:{r!r}"
 
     ARITY = {"consume": 6, "regen": 4, "transfer": 5, "convert": 3, "dorm": 2, "wake": 2, "interest": 2, "rst": 2,
@@ -589,9 +662,13 @@ class C04(Prop):
         if t[0] not in self.ARITY or len(t) != self.ARITY[t[0]]:
             return False
         curpos = {"consume": 3, "regen": 3, "transfer": 4}.get(t[0])
+        amtpos = {"consume": 2, "regen": 2, "transfer": 3, "convert": 2}.get(t[0])
         for k, x in enumerate(t[1:], 1):
             if k == curpos:
                 if x not in CURS:
+                    return False
+            elif k == amtpos:
+                if not _isamt(x):
                     return False
             elif not _isnat(x):
                 return False
@@ -659,8 +736,11 @@ class C04(Prop):
             if self._console_kind is not None:
                 sys.stdout = _console(self._console_kind)
             try:
-                r, _ = self._apply(stores, line)
+                with _Watchdog(6):
+                    r, _ = self._apply(stores, line)
                 ret = self._show_ret(r)
+            except _Hang:
+                ret = "hang"
             except Exception as e:  # noqa
                 ret = f"raise:{type(e).__name__}"
             finally:
@@ -695,8 +775,9 @@ class C04(Prop):
             th = threading.Thread(target=run_b, daemon=True)
             st["thread"] = th
             th.start()
-            th.join(3)
+            th.join(3 if _Watchdog.hangs == 0 else 0.75)
             if th.is_alive():
+                _Watchdog.hangs += 1
                 st["rb"] = "deadlock"
 
         class Hook:
@@ -708,6 +789,11 @@ class C04(Prop):
                     st["n"] += 1
                     if st["n"] == k:
                         fire()
+                if threading.get_ident() == me and st["thread"] is not None and st["thread"].is_alive():
+                    # B could not finish while A was parked (A holds what B needs); if A now needs what B holds, nobody moves
+                    if not h.real.acquire(timeout=1.5):
+                        raise _RaceStuck()
+                    return True
                 return h.real.acquire(*a, **kw)
 
             def release(h):
@@ -732,8 +818,11 @@ class C04(Prop):
                     swapped.append((s_, name, v))
         try:
             try:
-                r, _ = self._apply(stores, a_line)
+                with _Watchdog(15):
+                    r, _ = self._apply(stores, a_line)
                 ra = self._show_ret(r)
+            except (_RaceStuck, _Hang):
+                ra = "deadlock"
             except Exception as e:  # noqa
                 ra = f"raise:{type(e).__name__}"
             if not st["fired"]:
@@ -807,8 +896,8 @@ class C04(Prop):
                     if i < len(cfg) and p_[3] > cfg[i]["max_debt"] + cfg[i]["accrued"]:
                         out.append(Violation("debt_within_limit", f"debt <= {cfg[i]['max_debt']} + interest {cfg[i]['accrued']}",
                                              f"store {i}: debt {p_[3]}", idx))
-                succ = sum(int(c_[2]) for c_, r_ in calls if c_[0] == "consume" and r_ == "1")
-                infl = sum(int(c_[2]) for c_, _ in calls if c_[0] == "regen")
+                succ = sum(_amt(c_[2]) for c_, r_ in calls if c_[0] == "consume" and r_ == "1")
+                infl = sum(_amt(c_[2]) for c_, _ in calls if c_[0] == "regen")
                 if ledger and len(now_all) == len(prev):
                     wb, wn = sum(worth(x) for x in prev), sum(worth(x) for x in now_all)
                     if wn + succ > wb + infl:
@@ -841,6 +930,8 @@ class C04(Prop):
                 out.append(Violation("observations_are_integers", "integer balances", o, idx))
                 break
             before = {i: prev[i] for i in ids}
+            if ret == "hang":
+                out.append(Violation("every_operation_returns", "the call returns", "the call did not return (it was ended after 6 s)", idx))
             # No operation raises (an exception that the on_state_change observer itself raised is the observer's).
             if ret.startswith("raise:") and ret[6:] not in raised_by_observer:
                 out.append(Violation("no_operation_raises", "a normal return", ret, idx))
@@ -860,7 +951,7 @@ class C04(Prop):
                     out.append(Violation("debt_within_limit", f"debt <= {cfg[i]['max_debt']} + interest {cfg[i]['accrued']}",
                                          f"store {i}: debt {p[3]}", idx))
             if t[0] == "consume":
-                cost = int(t[2])
+                cost = _amt(t[2])
                 d = worth(b0) - worth(n0)
                 if ret == "1":
                     spent += cost
@@ -898,7 +989,7 @@ class C04(Prop):
                     if ret == "0" and any(now[i][:4] != before[i][:4] for i in ids):
                         out.append(Violation("failed_transfer_is_free", "no change", f"{before} -> {now}", idx))
                 else:
-                    amount = int(t[2]) if t[0] == "regen" else cfg[i0]["rate"]
+                    amount = _amt(t[2]) if t[0] == "regen" else cfg[i0]["rate"]
                     if worth(n0) - worth(b0) > amount:
                         out.append(Violation("regeneration_adds_at_most_amount", f"net worth +<= {amount}",
                                              f"{b0} -> {n0}", idx))
